@@ -216,6 +216,6 @@ writer_harness!(c14_q_iccma_status, 6, status(true));
 writer_harness!(c14_q_apx_status, 6, status(false));
 writer_harness!(c14_q_iccma_ext_empty, 6, iccma_extension(0, 1));
 writer_harness!(c14_q_iccma_ext_one, 8, iccma_extension(1, 1000));
-writer_harness!(c14_t_iccma_ext_two, 8, iccma_extension(2, 100));
+writer_harness!(c14_t_iccma_ext_two, 11, iccma_extension(2, 100)); // "w 99 99\n": 8 bytes compared + slack
 writer_harness!(c14_z_apx_ext_a_b1, 8, apx_extension("a", "b1"));
 writer_harness!(c14_z_apx_framework, 12, apx_framework());
